@@ -304,6 +304,8 @@ def tree_changes(
             tree2_id,
             want_unchanged=want_unchanged,
             include_trees=include_trees,
+            change_type_same=change_type_same,
+            paths=paths,
         )
         return
 
@@ -621,6 +623,8 @@ class RenameDetector:
             tree2_id,
             want_unchanged=want_unchanged,
             include_trees=self._include_trees,
+            change_type_same=getattr(self, "_change_type_same", False),
+            paths=getattr(self, "_paths", None),
         ):
             self._add_change(change)
 
@@ -813,11 +817,15 @@ class RenameDetector:
         tree2_id: ObjectID | None,
         want_unchanged: bool = False,
         include_trees: bool = False,
+        change_type_same: bool = False,
+        paths: Sequence[bytes] | None = None,
     ) -> list[TreeChange]:
         """Iterate TreeChanges between two tree SHAs, with rename detection."""
         self._reset()
         self._want_unchanged = want_unchanged
         self._include_trees = include_trees
+        self._change_type_same = change_type_same
+        self._paths = paths
         self._collect_changes(tree1_id, tree2_id)
         self._find_exact_renames()
         self._find_content_rename_candidates()
